@@ -275,12 +275,18 @@ def run_sliced_case(case, acc=None):
     for j, post in enumerate(exs[:2]):
         try:
             post.path_slice()
+            parent_before = [c.get_id() for c in post.path.conditions]
             path = Path(mk_solver(a))
             path.extend_path(post.path)
             msg = Message(target=sym.con_addr(c01.MAIN), caller=z3.BitVec("caller2", 160), origin=z3.BitVec("origin2", 160), value=z3.BitVecVal(0, 256), data=ByteVec(z3.BitVec("cd2", 8 * 32 * gen.NW)), call_scheme=EVM.CALL)
             exs2 = list(sevm.run_message(post, msg, path))
         except Exception:
             continue
+        # independent record: extending a path must leave the parent's own constraints untouched
+        # (a second transaction from the same state would otherwise inherit its sibling's conditions)
+        if [c.get_id() for c in post.path.conditions] != parent_before:
+            fails.append((["sliced", "parent-path-modified"], f"the state's path had {len(parent_before)} conditions before a transaction was run from it, {len(post.path.conditions)} afterwards"))
+            return fails
         for i, ex in enumerate(exs2[:4]):
             n_inherited = len(post.path.conditions)
             for cache in (False, True):
